@@ -32,10 +32,10 @@ def check(world, tier):
     rep.analysed = {"listener events": len(L.events), "fs events": len(L.fs_events())}
     # ---------------------------------------------------------------- validators
     contains = [e for e in L.events if base_name(e) == "core::str::<impl str>::contains"]
-    anys = [e for e in L.events if base_name(e) == "std::iter::Iterator::any"]
+    anc = [x for x in eng.anc_eq_log if x["ctx"][:1] == (eng.entry_frame[0],)]
     d.need(len(set(e.node for e in contains)), 2, "'..' tests (one per handler)")
-    d.need(len(set(e.node for e in anys)), 2, "ancestor tests (one per handler)")
-    validators = {}   # frame -> dict
+    d.need(len(set(x["node"] for x in anc)), 2, "ancestor tests (one per handler)")
+    validators = {}   # handler frame (listen + handler call) -> {"contains": event, "any": ancestor comparison, "root_refs": [...]}
     for ce in contains:
         pat = ce.args[1] if len(ce.args) > 1 else None
         is_dd = isinstance(pat, tuple) and pat[0] == "r" and pat[1] == ("K", ("str", ".."))
@@ -45,71 +45,21 @@ def check(world, tier):
         s0 = ce.args[0]
         to_str_ok = isinstance(s0, tuple) and s0[0] == "r" and term_contains(s0, is_app("std::path::Path::to_str"))
         d.ob(to_str_ok, "dotdot-on-path in %s" % short(ce.body), "'..' is not searched in the path itself", ce.loc)
-        validators.setdefault(ce.ctx, {})["contains"] = ce
-        validators[ce.ctx].setdefault("contains_all", []).append(ce)
-    for ae in anys:
-        validators.setdefault(ae.ctx, {})["any"] = ae
-        validators[ae.ctx].setdefault("any_all", []).append(ae)
-    closure_checked = set()
-    for fid, v in validators.items():
+        validators.setdefault(ce.ctx[:2], {})["contains"] = ce
+    for x in anc:
+        v = validators.setdefault(x["ctx"][:2], {})
+        v["any"] = x
+        v.setdefault("root_refs", []).extend(x["other"])
+        # the ancestors walked are those of the request's joined path
+        pv = x["path_value"]
+        info = path_term_info(L, pv) if pv is not None else None
+        d.ob(info is not None and info["relative"], "ancestors-of-other-path in %s" % short(frame_fn(x["ctx"])),
+             "the ancestor test does not walk the ancestors of join(root, convert(filename))", x["loc"],
+             sample={"ancestors of": "join(self.%s, convert(filename))" % (info["root_field"] if info else "?")})
+    for hk, v in validators.items():
         ok = "contains" in v and "any" in v
-        d.ob(ok, "validator-conjunction in %s" % short(frame_fn(fid)), "the validator lacks the %s test" % ("ancestor" if "contains" in v else "'..'"),
-             sample={"validator frame": short(frame_fn(fid)), "tests": sorted(v.keys())})
-        if not ok:
-            continue
-        ae, ce = v["any"], v["contains"]
-        # any() iterates the ancestors of the same path and compares with the root captured by the closure
-        it = ae.args[0]
-        anc_ok = term_contains(ae.argsnap[0] if ae.argsnap and ae.argsnap[0] else it, is_app("std::path::Path::ancestors")) or \
-            term_contains(it, is_app("std::path::Path::ancestors"))
-        d.ob(anc_ok, "any-over-ancestors in %s" % short(ae.body), "the ancestor test does not iterate Path::ancestors() of the path", ae.loc)
-        clos = ae.args[1] if len(ae.args) > 1 else None
-        cap = clos[1].get((0,)) if isinstance(clos, tuple) and clos[0] == "agg" else None
-        # the closure captures a reference to a local/parameter that holds the root reference: resolve through
-        # the arguments of the (inlined) call that created this frame
-        root_ref = cap
-        hops = 0
-        while isinstance(root_ref, tuple) and root_ref and root_ref[0] == "r" and root_ref[1][0] == "L" and hops < 4:
-            hops += 1
-            lfid, lidx = root_ref[1][1], root_ref[1][2]
-            site = lfid[-1] if lfid else None
-            body_ = eng.frame_bodies.get(lfid)
-            if not (isinstance(site, tuple) and site[0] == "call" and body_ is not None and isinstance(lidx, int) and 1 <= lidx <= body_.arg_count and root_ref[2] == ()):
-                break
-            call_node = (lfid[:-1], site[3])
-            cands_ = [x for x in L.by_node.get(call_node, []) if x.inlined and len(x.args) >= lidx]
-            if not cands_:
-                break
-            root_ref = cands_[0].args[lidx - 1]
-        v["root_ref"] = root_ref
-        cd = clos[1].get(("$closure",)) if isinstance(clos, tuple) and clos[0] == "agg" else None
-        cdef = cd[1][1] if cd is not None else None
-        if cdef is not None and cdef not in closure_checked:
-            closure_checked.add(cdef)
-            body = prog.bodies.get(cdef)
-            eqs = 0
-            others = []
-            if body is not None:
-                for blk in body.blocks:
-                    t = blk["term"]
-                    if t["k"] == "call":
-                        nm = strip_generics(t["fn"].get("resolved") or t["fn"].get("def", ""))
-                        if nm.endswith("::eq") and "PartialEq" in nm:
-                            eqs += 1
-                        else:
-                            others.append(nm)
-            d.ob(eqs == 1 and not others, "ancestor-closure-is-equality", "the closure of the ancestor test is not a plain `ancestor == root` comparison "
-                 "(calls: eq x%d, others %s)" % (eqs, others), sample={"closure": short(cdef), "eq calls": eqs})
-        # the result is the conjunction: contains == false edge and any == true edge both dominate the validator's true result
-        v["c_true"], v["c_false"], v["a_true"], v["a_false"] = set(), set(), set(), set()
-        for x in v["contains_all"]:
-            t_, f_ = L.result_true_edges(x)
-            v["c_true"] |= t_
-            v["c_false"] |= f_
-        for x in v["any_all"]:
-            t_, f_ = L.result_true_edges(x)
-            v["a_true"] |= t_
-            v["a_false"] |= f_
+        d.ob(ok, "validator-conjunction in %s" % short(frame_fn(hk)), "the validation of this handler lacks the %s test" % ("ancestor" if "contains" in v else "'..'"),
+             sample={"handler": short(frame_fn(hk)), "tests": sorted(k for k in v if k in ("contains", "any"))})
     # ---------------------------------------------------------------- handlers: one per spawn kind
     spawns = [e for e in L.events if base_name(e) == "std::thread::spawn"]
     c.need(len(set(e.node for e in spawns)), 2, "worker spawns on the listener")
@@ -138,11 +88,9 @@ def check(world, tier):
         handler_validators = [v for fid, v in validators.items() if fid[:2] == sp.ctx[:2] and "any" in v and "contains" in v]
         c.ob(len(handler_validators) >= 1, "no-validator-on-path %s" % kind, "no path validation in the handler that spawns the %s worker" % kind, sp.loc)
         for v in handler_validators:
-            cap = v.get("root_ref")
-            b.ob(L.field_ref(cap, want_root), "validator-root %s" % kind, "the ancestor test of the %s handler compares with another directory than %s" % (kind, want_root),
-                 v["any"].loc, sample={"ancestor == ": "self." + want_root})
-            # the validated path is the path that is used: the path whose ancestors are walked is the join result
-            snap = arg_pointee(v["any"], 0)
+            b.ob(any(L.field_ref(r_, want_root) for r_ in v.get("root_refs", [])), "validator-root %s" % kind,
+                 "the ancestor test of the %s handler compares with another directory than %s" % (kind, want_root),
+                 v["any"]["loc"], sample={"ancestor == ": "self." + want_root})
     a.ob(set(kinds) >= {"send", "receive"}, "both-handlers", "spawn of send and receive workers not both found: %s" % sorted(kinds), nontrivial=False)
     # ---------------------------------------------------------------- c gate (ghost monitor 'validated')
     gv = [o for o in eng.obligations.values() if o.kind == "ghost:validated"]
@@ -168,24 +116,6 @@ def check(world, tier):
             c.ob(okr, "rejection-without-error-2", "a request whose path failed validation is not answered with ERROR AccessViolation (last reply code: %s)"
                  % (lin.show(rp[1]) if rp is not None and rp[0] == "i" else "none"), sample={"validation failed": True, "reply": "ERROR 2"})
     c.need(rejected, 2, "loop iterations ending with a failed validation (RRQ and WRQ, '..' and ancestor test)")
-    # ---------------------------------------------------------------- d validator function on its own
-    vfns = set(eng.frame_bodies[fid].path for fid, v in validators.items() if "any" in v and "contains" in v)
-    for vf in sorted(vfns):
-        ev_ = world.run("fn:" + vf)
-        d.need(len(ev_.finals), 2, "return states of the validator")
-        for s_ in ev_.finals:
-            rv = ev_.read(s_, ("L", ev_.entry_frame, 0), ())
-            d_ = s_.store.get(("G",), {})
-            vc, va = d_.get(("v_contains",)), d_.get(("v_any",))
-            if rv[0] == "i" and rv[1] == (0, ()):
-                d.ob(True, "validator-false-path", "", nontrivial=False)
-                continue
-            ok = va is not None and rv == va and vc is not None and vc[0] == "i" and s_.ctx.entails_eq(vc[1], lin.const(0))
-            if rv[0] == "b":
-                ok = False
-            d.ob(ok, "validator-accepts-without-both-tests in %s" % short(vf),
-                 "the validator can return true without  contains('..') == false  and  ancestors().any(== root) == true", sample={
-                     "returns": "any-result" if ok else repr(rv)[:60], "under": "contains('..') == false"})
     # listener fs events use the validated path with the right root
     for e in fs:
         snap = arg_pointee(e, 0)
@@ -228,6 +158,8 @@ def check(world, tier):
         clos = e.args[1] if len(e.args) > 1 else None
         cd = clos[1].get(("$closure",)) if isinstance(clos, tuple) and clos[0] == "agg" else None
         cdef = cd[1][1] if cd is not None else None
+        if cdef is None and isinstance(clos, tuple) and clos and clos[0] == "fn" and len(clos) > 1 and clos[1] in prog.bodies:
+            cdef = clos[1]      # a named predicate function instead of a closure
         if cdef is None:
             pat = clos
             e_.ob(False, "trim-pattern", "leading separators are trimmed with an unrecognised pattern %r" % (repr(pat)[:40],), e.loc)
